@@ -148,17 +148,20 @@ pub fn gen_world(seed: u64) -> C13World {
     }
     let path_of = |d: &str, n: &str| if d == "." { n.to_string() } else { format!("{d}/{n}") };
     let mut alias_d = false;
-    if r.chance(1, 3) {
-        // a symlink to a (leaf) file under another name in the importer's directory
-        let d = copies["d.libsonnet"][0].clone();
-        let target = path_of(&d, "d.libsonnet");
+    // which module the alias points at: any of b, c, d - also modules with relative imports of their own, whose
+    // directory for those imports is then the ALIAS's directory when the alias is what loaded them first
+    let alias_name: &str = NAMES[1 + r.usize_below(NAMES.len() - 1)];
+    if r.chance(1, 2) {
+        // a symlink to a file under another name in the importer's directory
+        let d = r.pick(&copies[alias_name]).clone();
+        let target = path_of(&d, alias_name);
         let up = if main_dir.as_deref() == Some(".") { String::new() } else { "../".to_string() };
         let alias_path = if main_dir.as_deref() == Some(".") { "alias_d.libsonnet".to_string() } else { "app/alias_d.libsonnet".to_string() };
         tree.push((alias_path, Entry::Symlink(format!("{up}{target}"))));
         alias_d = true;
     }
     // planted faults of the real kind
-    let planted = if r.chance(1, 6) { r.below(4) + 1 } else { 0 };
+    let planted = if r.chance(1, 6) { r.below(5) + 1 } else { 0 };
     if planted == 2 {
         tree.push(("app/dangling.libsonnet".into(), Entry::Symlink("nowhere.libsonnet".into())));
     }
@@ -196,7 +199,7 @@ pub fn gen_world(seed: u64) -> C13World {
             16 if has_lnk && from_dir == Some("app") && copies[name].contains(&"j0".to_string()) => format!("lnk/{name}"),
             // app/lnk -> ../j0, so app/lnk/.. is the root: textual folding of `lnk/..` would name another place
             17 if has_lnk && from_dir == Some("app") => format!("lnk/../{}", path_of(&t, name)),
-            18 | 19 if alias_d && name == "d.libsonnet" && (from_dir == Some("app") || from_dir == Some(".")) => "alias_d.libsonnet".to_string(),
+            18 | 19 if alias_d && name == alias_name && (from_dir == Some("app") || from_dir == Some(".")) => "alias_d.libsonnet".to_string(),
             _ => name.to_string(),
         }
     };
@@ -237,9 +240,10 @@ pub fn gen_world(seed: u64) -> C13World {
                 1 => "nonexistent_x.libsonnet",
                 2 => "dangling.libsonnet",
                 4 => "loop_a.libsonnet",
+                5 => "<ROOT>/app/cyc_a.libsonnet",
                 _ => "isdir.libsonnet",
             };
-            let kind = if r.chance(1, 2) { DepKind::Import } else { DepKind::ImportStr };
+            let kind = if planted == 5 || r.chance(1, 2) { DepKind::Import } else { DepKind::ImportStr };
             let at = r.usize_below(deps.len() + 1);
             deps.insert(at, Dep { field: String::new(), kind, spelling: sp.to_string(), line: 0, col: 0 });
             for (k, d) in deps.iter_mut().enumerate() {
@@ -278,6 +282,16 @@ pub fn gen_world(seed: u64) -> C13World {
         let mut c = content;
         c.extend_from_slice(d.as_bytes());
         tree.push((path_of(&d, "u.bin"), Entry::File(c)));
+    }
+    if planted == 5 {
+        // an import cycle that IS demanded: infinite recursion must be reported, each module evaluated at most once
+        for (me, other) in [("cyc_a", "cyc_b"), ("cyc_b", "cyc_a")] {
+            let mut deps = vec![Dep { field: "d0".into(), kind: DepKind::Import, spelling: format!("{other}.libsonnet"), line: 0, col: 0 }];
+            let id = format!("{me}@app");
+            let text = module_text(&id, &mut deps, None, None);
+            tree.push((format!("app/{me}.libsonnet"), Entry::File(text.into_bytes())));
+            modules.insert(format!("app/{me}.libsonnet"), Module { id, deps });
+        }
     }
     let (main, main_text) = gen_module(&mut r, "main", None, main_dir.as_deref(), true);
     let mut argv: Vec<String> = Vec::new();
